@@ -1,8 +1,10 @@
 // C14 correspondence harness, third translation unit: neighbouring public API of the anchored headers
 // (vector ∘ dim arithmetic, dim::contents, is_quadratic, to_dim / to_vector, vector::unit, matrix::transform_point /
-// transform_direction, matrix::infinity_norm).  Protocol: ops `nb`, `tp`, `inf` of /verif/lean/FcpptModel/Drv/C14.lean.
+// transform_direction, matrix::infinity_norm, vector::mod, vector::ceil_div_signed, math::mod, math::ceil_div_signed).  Protocol: ops `nb`, `md`, `tp`, `inf` of /verif/lean/FcpptModel/Drv/C14.lean.
 #include "common/vh.hpp"
 
+#include <fcppt/math/ceil_div_signed.hpp>
+#include <fcppt/math/mod.hpp>
 #include <fcppt/math/size_constant.hpp>
 #include <fcppt/math/size_type.hpp>
 #include <fcppt/math/static_size.hpp>
@@ -20,7 +22,9 @@
 #include <fcppt/math/matrix/static.hpp>
 #include <fcppt/math/matrix/transform_direction.hpp>
 #include <fcppt/math/matrix/transform_point.hpp>
+#include <fcppt/math/vector/ceil_div_signed.hpp>
 #include <fcppt/math/vector/dim.hpp>
+#include <fcppt/math/vector/mod.hpp>
 #include <fcppt/math/vector/init.hpp>
 #include <fcppt/math/vector/object_impl.hpp>
 #include <fcppt/math/vector/static.hpp>
@@ -228,6 +232,44 @@ std::string nb_line(std::string const &lr, ints const &a, ints const &b, unsigne
       });
 }
 
+template <typename U>
+std::string show_opt_scalar(fcppt::optional::object<U> const &o)
+{
+  return fcppt::optional::maybe(
+      o, [] { return std::string{"none"}; }, [](U const &x) { return std::to_string(x); });
+}
+
+// math::mod instantiates for unsigned (and floating-point) types only: the mod observers run on the absolute values
+using UT = unsigned long;
+UT uabs(long x) { return static_cast<UT>(x < 0 ? -x : x); }
+template <sz N>
+fm::vector::static_<UT, N> make_uvec(ints const &a)
+{
+  return fm::vector::init<fm::vector::static_<UT, N>>([&a]<sz I>(fm::size_constant<I>) { return uabs(a[I]); });
+}
+
+template <sz N>
+std::string md_line(std::string const &lr, ints const &a, ints const &b, long k)
+{
+  return with_vec<N>(
+      lr[0],
+      a,
+      [&](auto const &v0)
+      {
+        return with_vec<N>(
+            lr[1],
+            b,
+            [&](auto const &v1)
+            {
+              auto const ua = make_uvec<N>(a), ub = make_uvec<N>(b);
+              (void)v1;
+              return "ms=" + show_opt(fm::vector::mod(ua, uabs(k))) + " mv=" + show_opt(fm::vector::mod(ua, ub)) +
+                     " cd=" + show_opt(fm::vector::ceil_div_signed(v0, k)) + " m0=" + show_opt_scalar(fm::mod(uabs(a[0]), uabs(b[0]))) +
+                     " c0=" + show_opt_scalar(fm::ceil_div_signed(a[0], b[0]));
+            });
+      });
+}
+
 template <unsigned Lo, unsigned Hi, typename F>
 std::string dispatch(unsigned n, F f)
 {
@@ -270,7 +312,7 @@ std::string with_mat(char mode, ints const &a, F f)
 }
 }
 
-// called by harness/c14.cpp for the ops `nb`, `tp`, `inf`
+// called by harness/c14.cpp for the ops `nb`, `md`, `tp`, `inf`
 std::string c14_extra_handle(std::vector<std::string> const &t)
 {
   if (t[0] == "nb" && t.size() == 6)
@@ -282,6 +324,17 @@ std::string c14_extra_handle(std::vector<std::string> const &t)
     if (!a || !b)
       return "bad-op";
     return dispatch<1, 4>(*n, [&]<unsigned N>(std::integral_constant<unsigned, N>) { return nb_line<N>(t[1], *a, *b, *axis); });
+  }
+  if (t[0] == "md" && t.size() == 6)
+  {
+    auto const n = nat(t[2]);
+    auto const k = scalar(t[5]);
+    if (t[1].size() != 2 || !n || *n < 1 || *n > 4 || !k)
+      return "bad-op";
+    auto const a = int_list(t[3], *n), b = int_list(t[4], *n);
+    if (!a || !b)
+      return "bad-op";
+    return dispatch<1, 4>(*n, [&]<unsigned N>(std::integral_constant<unsigned, N>) { return md_line<N>(t[1], *a, *b, *k); });
   }
   if (t[0] == "tp" && t.size() == 5)
   {
